@@ -1,6 +1,13 @@
+// Package c07: invokers and generators for property C07 (GetShiftingSpatialID is modular translation on the grid).
 package c07
 
 import (
+	"math"
+	"math/big"
+	"strconv"
+	"strings"
+	"time"
+
 	"github.com/trajectoryjp/spatial_id_go/v4/operated"
 
 	. "verif/harness/gen"
@@ -9,14 +16,14 @@ import (
 )
 
 func fnShift() *run.Fn {
-	return &run.Fn{Name: "GetShiftingSpatialID", Invoke: func(a []w.Val) w.Val {
+	return &run.Fn{Name: "GetShiftingSpatialID", Timeout: 2 * time.Second, Invoke: func(a []w.Val) w.Val {
 		return w.S(operated.GetShiftingSpatialID(w.AsStr(a[0]), w.AsInt(a[1]), w.AsInt(a[2]), w.AsInt(a[3])))
 	}}
 }
 
 // shift laws observed on the implementation: [s1; s2 = shift(s1,b); s12 = shift(id,a+b); back = shift(s1,-a); zero = shift(id,0)]
 func fnShiftLaws() *run.Fn {
-	return &run.Fn{Name: "ShiftLaws", Invoke: func(a []w.Val) w.Val {
+	return &run.Fn{Name: "ShiftLaws", Timeout: 2 * time.Second, Invoke: func(a []w.Val) w.Val {
 		id := w.AsStr(a[0])
 		x1, y1, v1 := w.AsInt(a[1]), w.AsInt(a[2]), w.AsInt(a[3])
 		x2, y2, v2 := w.AsInt(a[4]), w.AsInt(a[5]), w.AsInt(a[6])
@@ -29,9 +36,56 @@ func fnShiftLaws() *run.Fn {
 	}}
 }
 
-func hShift(g *Gen, h int64) int64 {
+type vox struct{ h, x, y, v, f int64 }
+
+func (p vox) id() string { return EID(p.h, p.x, p.y, p.v, p.f) }
+
+func genVox(g *Gen) vox {
+	h, v := g.Zoom(), g.Zoom()
+	return vox{h, g.HIndex(h), g.HIndex(h), v, g.VIndex(v)}
+}
+
+// spell: an accepted non-canonical spelling of the same ID ("+3", "007", "-0", "+0"): strconv.ParseInt takes them all
+func spell(g *Gen, p vox) string {
+	fs := []int64{p.h, p.x, p.y, p.v, p.f}
+	out := make([]string, 5)
+	for k, n := range fs {
+		s := strconv.FormatInt(n, 10)
+		switch g.Intn(4) {
+		case 0:
+			if n >= 0 {
+				s = "+" + s
+			}
+		case 1:
+			z := strings.Repeat("0", 1+g.Intn(3))
+			if n < 0 {
+				s = "-" + z + s[1:]
+			} else {
+				s = z + s
+			}
+		case 2:
+			if n == 0 {
+				s = []string{"-0", "+0", "00", "-00"}[g.Intn(4)]
+			}
+		}
+		out[k] = s
+	}
+	return strings.Join(out, "/")
+}
+
+// hShift: a horizontal shift with |d| <= 4*2^h, aimed at the guard boundaries of the wrap (x+d = -1, 0, w-1, w, -w, multiples of w)
+func hShift(g *Gen, h, x int64) int64 {
 	ww := int64(1) << uint(h)
-	switch g.Intn(8) {
+	clamp := func(d int64) int64 {
+		if d > 4*ww {
+			return 4 * ww
+		}
+		if d < -4*ww {
+			return -4 * ww
+		}
+		return d
+	}
+	switch g.Intn(10) {
 	case 0:
 		return 0
 	case 1:
@@ -39,45 +93,224 @@ func hShift(g *Gen, h int64) int64 {
 	case 2:
 		return g.Pick(ww, -ww, ww-1, -ww+1, ww+1, -ww-1)
 	case 3:
-		return g.Pick(4*ww, -4*ww, 2*ww, -2*ww, 3*ww-1)
+		return g.Pick(4*ww, -4*ww, 2*ww, -2*ww, 3*ww-1, -3*ww+1)
+	case 4: // land exactly on a guard boundary: s = x+d in {-1, 0, w-1, w, -w, -w-1, 2w, -2w}
+		return clamp(g.Pick(-1, 0, ww-1, ww, -ww, -ww-1, 2*ww, -2*ww, -3*ww) - x)
 	}
 	return g.Int63n(8*ww+1) - 4*ww
 }
-func vShift(g *Gen) int64 {
-	switch g.Intn(5) {
+
+var (
+	maxI = big.NewInt(math.MaxInt64)
+	minI = big.NewInt(math.MinInt64)
+)
+
+func fits(b *big.Int) bool { return b.Cmp(minI) >= 0 && b.Cmp(maxI) <= 0 }
+
+// vTarget: a vertical index anywhere in int64 — forced around 2^53 (a float64 detour would show), 2^62, the int64 ends, and uniform
+func vTarget(g *Gen) int64 {
+	switch g.Intn(8) {
+	case 0:
+		return g.Pick(1<<53, 1<<53+1, 1<<53-1, -(1 << 53), -(1<<53 + 1), -(1<<53 - 1), 1<<53+2, 1<<54+1)
+	case 1:
+		return g.Pick(1<<62, -(1 << 62), 1<<62+1, 1<<62-1, 1<<63-2, -(1<<63 - 1))
+	case 2:
+		return g.Pick(math.MaxInt64, math.MinInt64, math.MaxInt64-1, math.MinInt64+1)
+	case 3:
+		return g.Int63n(2001) - 1000
+	case 4:
+		return g.Int63n(1<<40) - (1 << 39)
+	}
+	// uniform over int64
+	u := g.R.Uint64()
+	return int64(u)
+}
+
+// vShift: dv with f+dv inside int64 (the property's restriction), small / huge / at the ends
+func vShift(g *Gen, f int64) int64 {
+	switch g.Intn(6) {
 	case 0:
 		return 0
 	case 1:
 		return g.Pick(1, -1)
 	case 2:
-		return g.Int63n(1<<40) - (1 << 39)
+		return g.Int63n(2001) - 1000
 	}
-	return g.Int63n(2001) - 1000
+	for {
+		t := vTarget(g)
+		d := new(big.Int).Sub(big.NewInt(t), big.NewInt(f))
+		if fits(d) {
+			return d.Int64()
+		}
+	}
+}
+
+func lapTag(x, d, ww int64) string {
+	s := x + d
+	lap := s / ww
+	if s < 0 && s%ww != 0 {
+		lap--
+	}
+	switch {
+	case lap == 0:
+		return "lap=0"
+	case lap == 1:
+		return "lap=+1"
+	case lap > 1:
+		return "lap>+1"
+	case lap == -1:
+		return "lap=-1"
+	}
+	return "lap<-1"
+}
+
+func shiftTags(p vox, dx, dy, dv int64) []string {
+	ww := int64(1) << uint(p.h)
+	t := []string{Tag("hzoom=%d", p.h), "x:" + lapTag(p.x, dx, ww), "y:" + lapTag(p.y, dy, ww)}
+	for _, s := range []int64{p.x + dx, p.y + dy} {
+		switch s {
+		case -1:
+			t = append(t, "s=-1")
+		case 0:
+			t = append(t, "s=0")
+		case ww - 1:
+			t = append(t, "s=w-1")
+		case ww:
+			t = append(t, "s=w")
+		case -ww:
+			t = append(t, "s=-w")
+		}
+	}
+	if dx < 0 || dy < 0 {
+		t = append(t, "dh<0")
+	}
+	if dv < 0 {
+		t = append(t, "dv<0")
+	}
+	r := p.f + dv
+	a := r
+	if a < 0 {
+		a = -a
+	}
+	switch {
+	case r == math.MaxInt64 || r == math.MinInt64:
+		t = append(t, "f+dv=int64-end")
+	case a < 0 || a >= 1<<53:
+		t = append(t, "|f+dv|>=2^53")
+	case a >= 1<<40:
+		t = append(t, "|f+dv|>=2^40")
+	}
+	return t
+}
+
+func runShift(r *run.Runner, id string, dx, dy, dv int64, tags []string, triv bool) {
+	r.Run(run.Case{Prop: "C07", Fn: "GetShiftingSpatialID", Tags: tags, Trivial: triv,
+		Args: []w.Val{w.S(id), w.I(dx), w.I(dy), w.I(dv)}})
+}
+
+// second shift of a law case: everything the invoker and the library add must stay inside int64
+func secondV(g *Gen, f, a3 int64) int64 {
+	for {
+		b3 := vShift(g, f+a3)
+		sum := new(big.Int).Add(big.NewInt(a3), big.NewInt(b3))
+		tot := new(big.Int).Add(sum, big.NewInt(f))
+		if fits(sum) && fits(tot) {
+			return b3
+		}
+	}
+}
+
+// exhaustive small scope (thorough tier): zooms 0..3, every index, every shift in [-4*2^h, 4*2^h] on both axes
+// (per axis exhaustive; the other axis runs through the mirrored shift so that every (y, dy) pair occurs as well), zooms 0..1 as a full product
+func sweep(r *run.Runner) {
+	for h := int64(0); h <= 3; h++ {
+		ww := int64(1) << uint(h)
+		for x := int64(0); x < ww; x++ {
+			for d := -4 * ww; d <= 4*ww; d++ {
+				for _, vf := range [][2]int64{{0, -1}, {35, 1<<35 - 1}} {
+					p := vox{h, x, ww - 1 - x, vf[0], vf[1]}
+					runShift(r, p.id(), d, -d, d, append(shiftTags(p, d, -d, d), "sweep"), d == 0)
+				}
+			}
+		}
+		if h <= 1 {
+			for x := int64(0); x < ww; x++ {
+				for y := int64(0); y < ww; y++ {
+					for dx := -4 * ww; dx <= 4*ww; dx++ {
+						for dy := -4 * ww; dy <= 4*ww; dy++ {
+							p := vox{h, x, y, 3, -8}
+							runShift(r, p.id(), dx, dy, 1, append(shiftTags(p, dx, dy, 1), "sweep"), false)
+						}
+					}
+				}
+			}
+		}
+		if r.Stopped() {
+			return
+		}
+	}
 }
 
 func init() {
 	Scale["C07"] = 20000
 	Registry["C07"] = func(r *run.Runner, g *Gen, n int) {
 		r.Register(fnShift(), fnShiftLaws())
-		for i := 0; i < n; i++ {
-			id, h, _ := g.ValidEID()
-			tags := []string{Tag("hzoom=%d", h)}
-			triv := false
-			if i%25 == 0 {
+		if n == 0 {
+			return
+		}
+		if g.Tier == "thorough" {
+			sweep(r)
+		}
+		for i := 0; i < n && !r.Stopped(); i++ {
+			p := genVox(g)
+			id := p.id()
+			var tags []string
+			malformed := false
+			switch {
+			case i%25 == 0:
 				id = g.Malformed()
-				h = 1
+				p = vox{1, 0, 0, 1, 0}
+				malformed = true
+			case i%25 == 1 || i%25 == 2:
+				id = spell(g, p)
+				tags = append(tags, "non-canonical-spelling")
+			}
+			dx, dy, dv := hShift(g, p.h, p.x), hShift(g, p.h, p.y), vShift(g, p.f)
+			if malformed {
 				tags = []string{"malformed"}
-			}
-			dx, dy, dv := hShift(g, h), hShift(g, h), vShift(g)
-			if dx == 0 && dy == 0 && dv == 0 {
-				triv = true
-			}
-			if i%3 == 0 {
-				r.Run(run.Case{Prop: "C07", Fn: "ShiftLaws", Tags: append(tags, "laws"), Trivial: triv,
-					Args: []w.Val{w.S(id), w.I(dx), w.I(dy), w.I(dv), w.I(hShift(g, h)), w.I(hShift(g, h)), w.I(vShift(g))}})
 			} else {
-				r.Run(run.Case{Prop: "C07", Fn: "GetShiftingSpatialID", Tags: tags, Trivial: triv,
-					Args: []w.Val{w.S(id), w.I(dx), w.I(dy), w.I(dv)}})
+				tags = append(tags, shiftTags(p, dx, dy, dv)...)
+			}
+			triv := dx == 0 && dy == 0 && dv == 0
+			switch {
+			case i%3 == 0:
+				for dv == math.MinInt64 { // -dv must exist
+					dv = vShift(g, p.f)
+				}
+				b1, b2 := hShift(g, p.h, ((p.x+dx)%(1<<uint(p.h))+(1<<uint(p.h)))%(1<<uint(p.h))), hShift(g, p.h, p.y)
+				b3 := secondV(g, p.f, dv)
+				r.Run(run.Case{Prop: "C07", Fn: "ShiftLaws", Tags: append(tags, "laws"), Trivial: triv && b1 == 0 && b2 == 0 && b3 == 0,
+					Args: []w.Val{w.S(id), w.I(dx), w.I(dy), w.I(dv), w.I(b1), w.I(b2), w.I(b3)}})
+			case i%30 == 1 && !malformed:
+				// related consecutive calls: the same ID with another offset, the same offset at the neighbouring zoom, the identical call twice
+				runShift(r, id, dx, dy, dv, append(tags, "consecutive"), triv)
+				runShift(r, id, dx+1, dy, dv, append(tags, "consecutive"), false)
+				q := p
+				if q.h < 35 {
+					q.h++
+				} else {
+					q.h--
+					q.x, q.y = q.x/2, q.y/2
+				}
+				d2x, d2y := hShift(g, q.h, q.x), dy
+				if d2y > 4<<uint(q.h) || d2y < -(4<<uint(q.h)) {
+					d2y = 0
+				}
+				runShift(r, q.id(), d2x, d2y, dv, append(shiftTags(q, d2x, d2y, dv), "consecutive"), false)
+				runShift(r, id, dx, dy, dv, append(tags, "consecutive"), triv)
+				i += 3
+			default:
+				runShift(r, id, dx, dy, dv, tags, triv)
 			}
 		}
 	}
